@@ -1,6 +1,8 @@
 import Rough.Driver.Codec
 import Rough.Driver.Merkle
 import Rough.Driver.Server
+import Rough.Driver.Keys
+import Rough.Driver.Stats
 open Rough Rough.Driver
 
 def dispatch (op : String) (args : List String) (impl : String) : Verdict :=
@@ -10,6 +12,12 @@ def dispatch (op : String) (args : List String) (impl : String) : Verdict :=
   | "enc" => opEnc args impl
   | "merkle" => opMerkle args impl
   | "srv" => opSrv args impl
+  | "sign" => opSign args impl
+  | "vrf" => opVrf args impl
+  | "ltk" => opLtk args impl
+  | "srep" => opSrep args impl
+  | "stats" => opStats args impl
+  | "rep" => opRep args impl
   | _ => bad ("unknown op " ++ op)
 
 def handle (line : String) : String :=
